@@ -132,8 +132,18 @@ func (state *State) NextBlock() wire.Block {
 	state.pendingBlockSize -= state.blocksRequested[0].size
 	state.lastSavedHash = state.blocksRequested[0].hash
 	state.blocksRequested = state.blocksRequested[1:] // Remove first item
+	state.blockProcessing = true                      // until BlockProcessed is called
 
 	return result
+}
+
+// BlockProcessed marks the block handed out by NextBlock as finished, whether it was added to the
+// chain or not. Until then the block requests do not count as empty.
+func (state *State) BlockProcessed() {
+	state.lock.Lock()
+	defer state.lock.Unlock()
+
+	state.blockProcessing = false
 }
 
 func (state *State) GetNextBlockToRequest() (*bitcoin.Hash32, int) {
@@ -181,7 +191,8 @@ func (state *State) BlockRequestsEmpty() bool {
 	state.lock.Lock()
 	defer state.lock.Unlock()
 
-	return len(state.blocksToRequest) == 0 && len(state.blocksRequested) == 0
+	return len(state.blocksToRequest) == 0 && len(state.blocksRequested) == 0 &&
+		!state.blockProcessing
 }
 
 func (state *State) LastHash() bitcoin.Hash32 {
